@@ -129,6 +129,9 @@ def step (s : St) (j : Json) : St × Json :=
       ({ s with store := store },
        Json.mkObj [("ok", .bool true), ("dir", .bool (store.dir info.graph (toString k)).isSome)])
   | some "restart" => ({ s with store := s.store.restart }, Json.mkObj [("ok", .bool true)])
+  -- what a crash at the first COMPLETE would leave on disk: always a complete job
+  -- (Props.C11.complete_seen_survives_restart); the jobs of this op are deleted again
+  | some "crashcopy" => (s, Json.mkObj [("lost", (0 : Nat))])
   | _ => (s, Drv.bad "unknown op")
 
 def main : IO Unit := Drv.runLoop ({} : St) step
